@@ -33,13 +33,26 @@ def daysFromCivil (y m d : Int) : Int :=
   let doe := yoe * 365 + yoe / 4 - yoe / 100 + doy
   era * 146097 + doe - 719468
 
+/-- year of era (0..399) and day of the March-based year (0..365) from the day of era
+(0..146096): the 100-year / 4-year / 1-year cascade Go's `time` package uses
+(`absDate`: "cut off 100-year cycles … convert 4 to 3"). -/
+def yearOfEra (doe : Int) : Int × Int :=
+  let c0 := doe / 36524
+  let c := if c0 ≥ 4 then 3 else c0
+  let r := doe - 36524 * c
+  let q := r / 1461
+  let s := r - 1461 * q
+  let t0 := s / 365
+  let t := if t0 ≥ 4 then 3 else t0
+  (100 * c + 4 * q + t, s - 365 * t)
+
 def civilFromDays (z0 : Int) : Int × Int × Int :=
   let z := z0 + 719468
   let era := z / 146097
   let doe := z - era * 146097
-  let yoe := (doe - doe / 1460 + doe / 36524 - doe / 146096) / 365
-  let y := yoe + era * 400
-  let doy := doe - (365 * yoe + yoe / 4 - yoe / 100)
+  let yd := yearOfEra doe
+  let y := yd.1 + era * 400
+  let doy := yd.2
   let mp := (5 * doy + 2) / 153
   let d := doy - (153 * mp + 2) / 5 + 1
   let m := if mp < 10 then mp + 3 else mp - 9
@@ -272,7 +285,7 @@ end Spec
 
 /-! ## tolerances (in days) between the stored float64 and the exact serial.
 `encTol` is what the harness measures on every stored value; `decTol` is what the
-decode theorem assumes.  `encTol ≤ decTol / 2` leaves room for the roundings inside
+decode theorem assumes.  `encTol < decTol` leaves room for the roundings inside
 Go's decoder that the exact model does not have. -/
 
 def pow2 (k : Nat) : Rat := (1 : Rat) / ((2 ^ k : Nat) : Rat)
@@ -280,8 +293,10 @@ def pow2 (k : Nat) : Rat := (1 : Rat) / ((2 ^ k : Nat) : Rat)
 /-- measured: |stored − exact| ≤ 2⁻⁴⁰ below serial 64 (ulp 2⁻⁴⁷), ≤ 2⁻³⁰ up to 2²² (ulp 2⁻³¹) -/
 def encTol (exactSerialNs : Int) : Rat := if exactSerialNs < 64 * nsPerDay then pow2 40 else pow2 30
 
-/-- assumed by `decode_tolerant`: 2⁻³⁸ days (0.3 ns) on the Julian path (serial < 63),
-2⁻¹⁸ days (0.33 s) on the Gregorian path -/
+/-- assumed by `decode_tolerant`: 2⁻³⁸ day (314 ns; the Julian path rounds to the microsecond)
+for days ≤ 62, 2⁻¹⁸ day (0.33 s; the Gregorian path rounds to the second) above.  Go's Julian
+path adds a float64 rounding of `excelTime + OFFSET` of at most 2⁻³⁹ day (157 ns) that the exact
+model does not have: measured 2⁻⁴⁰ + 2⁻³⁹ < 2⁻³⁸. -/
 def decTol (day : Int) : Rat := if day ≤ 62 then pow2 38 else pow2 18
 
 end XlModel.Date
